@@ -1,6 +1,7 @@
 import Xo.Model.Assign
 import Xo.Lemmas.LayoutRT
 import Xo.Lemmas.Index
+import Xo.Model.RefGraph
 /-! C11 — operations that cannot be honoured fail without side effects (property theorems only).
 The model's assignment returns either an error (and then there is no new memory: the buffer is what it was) or the new
 memory; these theorems say when each happens and that a success never leaves the slot's extent.  The ORDER of checks and
@@ -189,5 +190,20 @@ theorem C11_accepted_index_inside (it : Ty) (shape : List (Option Nat)) (order s
 
 example : boundCheck [2, 3] [1, 2] = true ∧ boundCheck [2, 3] [1, 2, 5] = false ∧ boundCheck [2, 3] [-1, 0] = false ∧
     boundCheck [2, 3] [0, 3] = false ∧ boundCheck [2, 3] [1] = true := by decide
+
+/-- "a value whose type is not a member of the union": binding a node whose class is not among the members of the union reference
+(or is not the class of the plain reference) is refused by the reference-graph model - the state, every byte and every live object,
+is the state before.  The tie executes exactly this `bindObj` against the library's raise (`bindbad` operations of the `rg` stream). -/
+theorem C11_nonmember_refused (u : RG.Univ) (s : RG.St) (ha k ta : Nat) (h t : RG.Ent) (fk : RG.FK) (a tc : Nat)
+    (hh : RG.findObj s ha = some h) (ht : RG.findObj s ta = some t) (hf : RG.fieldAt u h k = some (fk, a))
+    (htc : t.cls = some tc)
+    (hn : match fk with | .scal => True | .ref c => tc ≠ c | .uref cs => tc ∉ cs) :
+    RG.bindObj u s ha k ta = s := by
+  unfold RG.bindObj
+  simp only [hh, ht, hf, htc]
+  cases fk with
+  | scal => rfl
+  | ref c => simp only at hn; simp [hn]
+  | uref cs => simp only at hn; simp [hn]
 
 end Lay
